@@ -493,7 +493,10 @@ def molecules(ctx):
 # ------------------------------------------------------------------------------------------------
 
 def generate(ctx):
-    return [gen_c02.generate()]
+    """own tables + the two stereo sign tables of C12 that the imported Model/Stereo.lean evaluates (the writer model must
+    mirror today's tables; whether they are right is C12's property, a change there must not alarm here)"""
+    from ..gen import gen_stereo
+    return [gen_c02.generate(), gen_stereo.generate()[0]]
 
 
 def correspond(ctx):
@@ -512,6 +515,11 @@ def correspond(ctx):
             specs = [(sp, None) for sp in dict.fromkeys(['', 'r'] + ctx.rng.sample(SPECS[1:], n_specs))]
             if st:
                 specs += [('a', None)] + [('ra', None)] * 4
+                try:  # '/' on a ring-closure bond written at one end only: needs the closure to fall on that bond
+                    if m.rings_count and any(b.stereo is not None for _, _, b in m.bonds()):
+                        specs += [('ra', None)] * 12
+                except Exception:  # noqa
+                    pass
             if st:  # every stereo atom / double-bond end once as the first atom of the text (first-atom chirality rule, '/' placement)
                 centres = [n for n, a in m._atoms.items() if a.stereo is not None]
                 centres += [n for x, y, b in m.bonds() if b.stereo is not None for n in (x, y)]
